@@ -10,7 +10,9 @@ from hypothesis import strategies as st
 from vlib import gens
 from vlib.refs import corr as R
 
-D_MAX = 5.0
+# 3.5, not 5: the loss of accuracy of the truncated networks sets in abruptly (observed, same configuration:
+# TEMPO vs PT-TEMPO deviation / ((N+1) eps) = 1.4 at D=3, 39 at D=4, 1e4 at D=5), see DESIGN 10.7 / finding F-04
+D_MAX = 3.5
 O_POOL = [-1.0, -0.5, 0.0, 0.5, 1.0, 1.5, 2.0]
 
 
